@@ -615,5 +615,8 @@ func c09Main(args []string) error {
 		fmt.Printf("{\"runs\":%d}\n", runs)
 		return nil
 	}
-	return fmt.Errorf("c09: record")
+	if args[0] == "hooktrace" {
+		return c09HookTrace(args)
+	}
+	return fmt.Errorf("c09: record|hooktrace")
 }
